@@ -13,7 +13,7 @@
 use crate::ckalloc::CkAlloc;
 use crate::ctx::Ctx;
 use crate::elem::{self, Elem, P8, T24};
-use crate::plan::{Plan, PlanBH};
+use crate::plan::{KeyRef, Plan, PlanBH};
 use crate::states::{build, Coll, MapC, SetC, Spec, TableC, RECIPES};
 use crate::util::{splitmix64, Json, Rng};
 use rayon::iter::plumbing::{Consumer, Folder, Reducer, UnindexedConsumer};
@@ -665,6 +665,50 @@ fn equivalences(c: &mut Ctx, rng: &mut Rng) {
         let sa2 = sa.clone();
         crate::check!(sa.par_eq(&sa2), "set par_eq false on a clone");
     });
+    // the relations on structured pairs (strict subset / superset / equal / one element exchanged), also for sets far
+    // above any sequential cut-off, and with both operands being the same object
+    {
+        let big = if c.is_miri() { 40u32 } else { *rng.pick(&[10u32, 300, 5000, 5000, 20000]) };
+        let base: S<P8> = (0..big).map(|i| P8::make(i, 0)).collect();
+        let mut sup = base.clone();
+        sup.insert(P8::make(big + 1, 0));
+        sup.insert(P8::make(big + 2, 0));
+        let mut swapped = base.clone();
+        swapped.remove(&KeyRef(0));
+        swapped.insert(P8::make(big + 9, 0));
+        let pairs: [(&str, &S<P8>, &S<P8>); 6] =
+            [("strict subset", &base, &sup), ("strict superset", &sup, &base), ("same object", &base, &base), ("one element exchanged", &base, &swapped), ("exchanged, reversed", &swapped, &base), ("superset with itself", &sup, &sup)];
+        p.install(|| {
+            for (what, x, y) in pairs {
+                c.evaluations += 1;
+                crate::check!(x.par_eq(y) == (x == y), "HashSet par_eq ({}; {} vs {} elements) = {}, == gives {}", what, x.len(), y.len(), x.par_eq(y), x == y);
+                crate::check!(x.par_is_subset(y) == x.is_subset(y), "HashSet par_is_subset ({}) differs from is_subset", what);
+                crate::check!(x.par_is_superset(y) == x.is_superset(y), "HashSet par_is_superset ({}) differs from is_superset", what);
+                crate::check!(x.par_is_disjoint(y) == x.is_disjoint(y), "HashSet par_is_disjoint ({}) differs from is_disjoint", what);
+            }
+        });
+        c.sig_parts(&[91, big as u64]);
+        // maps: the same pairs, and a value that is not equal to itself (== is false even for the same object)
+        let mut fm: hashbrown::HashMap<P8, f64, PlanBH, CkAlloc> = hashbrown::HashMap::with_hasher_in(bh, CkAlloc);
+        for i in 0..big.min(6000) {
+            fm.insert(P8::make(i, 0), i as f64);
+        }
+        let fm_sup = {
+            let mut x = fm.clone();
+            x.insert(P8::make(big + 1, 0), 1.0);
+            x
+        };
+        let mut nan = fm.clone();
+        nan.insert(P8::make(big + 3, 0), f64::NAN);
+        let nan2 = nan.clone();
+        #[allow(clippy::eq_op)]
+        p.install(|| {
+            for (what, x, y) in [("same object", &fm, &fm), ("strict subset", &fm, &fm_sup), ("strict superset", &fm_sup, &fm), ("NaN value, same object", &nan, &nan), ("NaN value, clone", &nan, &nan2)] {
+                c.evaluations += 1;
+                crate::check!(x.par_eq(y) == (x == y), "HashMap par_eq ({}; {} vs {} entries) = {}, == gives {}", what, x.len(), y.len(), x.par_eq(y), x == y);
+            }
+        });
+    }
 }
 
 pub fn run(c: &mut Ctx) {
